@@ -662,49 +662,28 @@ namespace msgpack {
         JSONCONS_VISITOR_RETURN_TYPE visit_uint64(uint64_t val, 
             semantic_tag tag, 
             const ser_context&,
-            std::error_code&) final
+            std::error_code& ec) final
         {
             switch (tag)
             {
                 case semantic_tag::epoch_second:
+                    if (val > static_cast<uint64_t>((std::numeric_limits<int64_t>::max)()))
+                    {
+                        ec = msgpack_errc::invalid_timestamp; // seconds of a timestamp are a signed 64-bit integer
+                        JSONCONS_VISITOR_RETURN;
+                    }
                     write_timestamp(static_cast<int64_t>(val), 0);
                     break;
                 case semantic_tag::epoch_milli:
                 {
-                    if (val != 0)
-                    {
-                        auto dv = std::div(static_cast<int64_t>(val), static_cast<int64_t>(millis_in_second));
-                        int64_t seconds = dv.quot;
-                        int64_t nanoseconds = dv.rem*nanos_in_milli;
-                        if (nanoseconds < 0)
-                        {
-                            nanoseconds = -nanoseconds; 
-                        }
-                        write_timestamp(seconds, nanoseconds);
-                    }
-                    else
-                    {
-                        write_timestamp(0, 0);
-                    }
+                    const uint64_t ms = static_cast<uint64_t>(millis_in_second);
+                    write_timestamp(static_cast<int64_t>(val / ms), static_cast<int64_t>(val % ms)*nanos_in_milli);
                     break;
                 }
                 case semantic_tag::epoch_nano:
                 {
-                    if (val != 0)
-                    {
-                        auto dv = std::div(static_cast<int64_t>(val), static_cast<int64_t>(nanos_in_second));
-                        int64_t seconds = dv.quot;
-                        int64_t nanoseconds = dv.rem;
-                        if (nanoseconds < 0)
-                        {
-                            nanoseconds = -nanoseconds; 
-                        }
-                        write_timestamp(seconds, nanoseconds);
-                    }
-                    else
-                    {
-                        write_timestamp(0, 0);
-                    }
+                    const uint64_t ns = static_cast<uint64_t>(nanos_in_second);
+                    write_timestamp(static_cast<int64_t>(val / ns), static_cast<int64_t>(val % ns));
                     break;
                 }
                 default:
